@@ -1,5 +1,4 @@
--- Driver executable drv_tm (stub until its family is implemented).
-import AutomataVerif.Driver.Proto
+-- Driver executable drv_tm (C03, C17): Turing machines.
+import AutomataVerif.Driver.Tm
 def main : IO Unit := do
-  AV.Proto.loop (← IO.getStdin) (← IO.getStdout) fun cmd _ =>
-    if cmd == "PING" then .ok "pong" else .error s!"unknown command {cmd}"
+  AV.Proto.loop (← IO.getStdin) (← IO.getStdout) AV.Driver.Tm.handle
